@@ -14,6 +14,7 @@ CONSTANTS
   RecheckUnderLock = FALSE
   GuardedConn = TRUE
   PerCycleWG = TRUE
+  SubscribeMayFail = FALSE
   Script <- MCScriptC
 VIEW view
 INVARIANTS MutualExclusion FifoPrefix AtMostOnce ExactlyOnce NoPanic AfterShutdown NoLateStart Accounted
